@@ -690,6 +690,11 @@ class Interp:
                     break
             if ok:
                 out.append(self.ev(node.elt, fr))
+        if self.pure:
+            sq = self.list_to_seq(out, 'list')
+            if sq is None:
+                raise Unsupported('heterogeneous comprehension in spec', node)
+            return sq
         return self.alloc(HList(out, 'list'))
 
     def ev_GeneratorExp(self, node, frame):
